@@ -183,7 +183,11 @@ func c11Segments(stream []byte, cuts []int) [][]byte {
 }
 
 // c11Feed runs the real receive loop over the segments and returns what the handler got.
-func c11Feed(segs [][]byte) ([][]byte, bool, string) {
+func c11Feed(segs [][]byte) ([][]byte, bool, string) { return c11FeedStall(segs, 0) }
+
+// c11FeedStall: with stall > 0 the sender pauses for that long (virtual time) between two segments,
+// and the receiver has consumed everything sent before the pause
+func c11FeedStall(segs [][]byte, stall int64) ([][]byte, bool, string) {
 	w := vrt.NewWorld(nil, 0)
 	defer w.Close()
 	vnet.Reset()
@@ -198,7 +202,12 @@ func c11Feed(segs [][]byte) ([][]byte, bool, string) {
 	h := &c11Handler{}
 	t := NewTCPServerTransportWithConn(pc, false, NewSelfLearnRoute())
 	t.Start(h)
-	for _, s := range segs {
+	for i, s := range segs {
+		if stall > 0 && i > 0 {
+			w.Quiesce()
+			w.Advance(stall)
+			w.Quiesce()
+		}
 		dc.Write(s)
 	}
 	w.Quiesce()
@@ -260,20 +269,35 @@ func c11Check(elems []c11Elem, got [][]byte, closed bool, verdict string) (strin
 func c11Eval(cs c11Case) (string, string) {
 	elems, stream, _ := c11Stream(cs.Stream)
 	if cs.Mode == "e2e" {
-		return c11E2E(elems, stream, cs.Cuts)
+		return c11E2E(elems, stream, cs.Cuts, 0)
+	}
+	if cs.Mode == "e2e-stall" {
+		return c11E2E(elems, stream, cs.Cuts, c11Stall)
+	}
+	if cs.Mode == "direct-stall" {
+		got, closed, vd := c11FeedStall(c11Segments(stream, cs.Cuts), c11Stall)
+		return c11Check(elems, got, closed, vd)
 	}
 	got, closed, vd := c11Feed(c11Segments(stream, cs.Cuts))
 	return c11Check(elems, got, closed, vd)
 }
 
 // c11E2E: the same stream through a full proxy to a UDP backend.
-func c11E2E(elems []c11Elem, stream []byte, cuts []int) (string, string) {
+// c11Stall: the pause of the stalled modes - two hours of virtual time, longer than any plausible idle timer
+const c11Stall = int64(7200) * 1e9
+
+func c11E2E(elems []c11Elem, stream []byte, cuts []int, stall int64) (string, string) {
 	cfg := RCfg{Name: "svc.example.com", Listens: []RListen{{Addr: "127.0.0.1", UDP: 5060, TCP: 5062, Backends: []string{"tcp://127.0.1.2:7000"}, NoReceived: "true"}}}
 	w := StartRelayWorld(SimOpts{}, cfg)
 	defer w.Close()
 	c := w.Client("a", "127.0.0.9", "127.0.0.1:5062")
 	w.Observe()
-	for _, s := range c11Segments(stream, cuts) {
+	for i, s := range c11Segments(stream, cuts) {
+		if stall > 0 && i > 0 {
+			w.S.Run()
+			w.S.W.Advance(stall)
+			w.S.Run()
+		}
 		c.Write(s)
 	}
 	w.S.Run()
@@ -425,6 +449,15 @@ func c11Run(c *Ctx) {
 		for _, a := range singles {
 			run(c11Case{st, []int{a}, "direct"})
 		}
+		// the sender stalls for two hours at the cut (every cut of short streams, else around the marks):
+		// what is extracted does not depend on WHEN the bytes arrive either
+		stalls := near3
+		if n <= pairBudget {
+			stalls = singles
+		}
+		for _, a := range stalls {
+			run(c11Case{st, []int{a}, "direct-stall"})
+		}
 		// pairs of cuts: all pairs for short streams, else all pairs of positions around the marks
 		var pairSet []int
 		switch {
@@ -450,6 +483,7 @@ func c11Run(c *Ctx) {
 			run(c11Case{st, nil, "e2e"})
 			for _, a := range near3 {
 				run(c11Case{st, []int{a}, "e2e"})
+				run(c11Case{st, []int{a}, "e2e-stall"})
 			}
 		}
 	}
